@@ -179,6 +179,21 @@ theorem serving_advance (f g : Nat → Nat) (hfg : ∀ a k, k < c.ratio → f (k
         rw [hread hwe _ hk hselk, hmemM, hadr]
         congr 1; omega
 
+/-- Address decoding of a narrow memory of `ratio·dm` words seen through the converter. -/
+theorem mod_split (ratio dm a k : Nat) (hk : k < ratio) (hdm : 0 < dm) :
+    (k + ratio * a) % (ratio * dm) = k + ratio * (a % dm) := by
+  have h1 : k + ratio * a = k + ratio * (a % dm) + ratio * dm * (a / dm) := by
+    have := Nat.div_add_mod a dm
+    calc k + ratio * a = k + ratio * (dm * (a / dm) + a % dm) := by rw [this]
+      _ = k + ratio * (a % dm) + ratio * dm * (a / dm) := by
+        rw [Nat.mul_add, Nat.mul_assoc]; omega
+  have h2 : k + ratio * (a % dm) < ratio * dm := by
+    have := Nat.mod_lt a hdm
+    calc k + ratio * (a % dm) < ratio + ratio * (a % dm) := by omega
+      _ = ratio * (a % dm + 1) := by rw [Nat.mul_add, Nat.mul_one, Nat.add_comm]
+      _ ≤ ratio * dm := Nat.mul_le_mul_left _ this
+  rw [h1, Nat.add_mul_mod_self_left, Nat.mod_eq_of_lt h2]
+
 /-! #### the converter over any slave that implements a byte memory -/
 
 theorem ratio_pos : 0 < c.ratio := Nat.two_pow_pos _
